@@ -279,6 +279,12 @@ fn rejects_map<const N: usize>() {
 
 /// AdjacencyListWeighted<usize>: re-adding replaces the weight.
 fn history_weighted<const N: usize, const K: usize>() {
+    history_weighted_impl::<N, K, true>();
+}
+
+/// `ITER = false`: the observable state is compared through arc_weight / has_arc / size / order only
+/// (no arcs() / arcs_weighted() / vertices() iteration): the cheap quick form.
+fn history_weighted_impl<const N: usize, const K: usize, const ITER: bool>() {
     cx::set_vcap(N * N);
 
     let mut d = AdjacencyListWeighted::<usize>::empty(N);
@@ -328,7 +334,23 @@ fn history_weighted<const N: usize, const K: usize>() {
 
     let mut size = 0;
 
-    {
+    if !ITER {
+        for u in 0..N {
+            for v in 0..N {
+                assert!(d.has_arc(u, v) == m[u][v].is_some(), "has_arc = membership in A");
+                assert!(d.arc_weight(u, v).copied() == m[u][v], "arc_weight = w(u, v)");
+
+                if m[u][v].is_some() {
+                    size += 1;
+                }
+            }
+
+            assert!(!d.has_arc(u, usize::MAX), "no arc to a far-out id");
+            assert!(d.arc_weight(usize::MAX, u).is_none(), "no weight from a far-out id");
+        }
+    }
+
+    if ITER {
     let mut vs = d.vertices();
     let mut arcs = d.arcs();
     let mut arcsw = d.arcs_weighted();
@@ -495,16 +517,33 @@ pub fn c01_history_matrix_n4_k4() {
 
 // Inductive form: arbitrary start digraph + ONE operation (every state of these representations is reachable as a set
 // of arcs, so one step from an arbitrary start covers histories of any length for this order).
-// @verif prop=C01 tier=quick fl=f1 feat=map4 role=history/adjacency-map t=1500 mem=20
+// @verif prop=C01 tier=thorough fl=f1 feat=map4 role=history/adjacency-map t=3000 mem=20
 #[cfg_attr(kani, kani::proof)]
 #[cfg_attr(kani, kani::unwind(8))]
 pub fn c01_history_adjacency_map_n2_x3_k1() {
     history_map::<2, 3, 1>();
 }
 
-// @verif prop=C01 tier=quick fl=f1 feat=map4 role=history/weighted t=1500 mem=20
+// @verif prop=C01 tier=thorough fl=f1 feat=map4 role=history/weighted t=3000 mem=20
 #[cfg_attr(kani, kani::proof)]
 #[cfg_attr(kani, kani::unwind(8))]
 pub fn c01_history_weighted_n2_k2() {
     history_weighted::<2, 2>();
+}
+
+// Quick forms (every registered quick command has to finish well within 15 min): AdjacencyMap from empty(1), one
+// operation with ids < 2 (vertex growth or removal); weighted list on 3 vertices, arbitrary start + 2 operations, compared through arc_weight / has_arc / size (the form that
+// also iterates arcs_weighted() is thorough).
+// @verif prop=C01 tier=quick fl=f1 feat=map4 role=history/adjacency-map t=900 mem=16
+#[cfg_attr(kani, kani::proof)]
+#[cfg_attr(kani, kani::unwind(8))]
+pub fn c01_history_adjacency_map_n1_x2_k1() {
+    history_map::<1, 2, 1>();
+}
+
+// @verif prop=C01 tier=quick fl=f1 feat=map4 role=history/weighted t=900 mem=16
+#[cfg_attr(kani, kani::proof)]
+#[cfg_attr(kani, kani::unwind(8))]
+pub fn c01_history_weighted_light_n3_k2() {
+    history_weighted_impl::<3, 2, false>();
 }
